@@ -30,6 +30,10 @@ What the engine does, independent of the property:
     `for x in (<constants>)` is unrolled (a dispatch loop is an if-chain); `getattr(obj, <constant
     name>)(..)` is `obj.<name>(..)`; names bound to boolean / string constants are propagated
     (`reverse=inverse` with inverse=True); truthiness of an integer (`if not len(y)`);
+  * third round: helpers with early returns used as `x = helper(..)` are inlined with the caller's
+    continuation duplicated per return path; a list created empty and only appended n-tuples is n
+    parallel lists (collect pairs + unzip == two lists in lock step); module-level constant tuples
+    are resolved by value; `@staticmethod` helpers; `list()` == `[]`;
   * exceptions: the text of "what the function evaluates to when an exception propagates from here"
     is a stack (`self.failtext`): function level, loop level (accumulator with ok_ = false),
     `with` + try/finally level (run the finally part, then the outer text).
@@ -203,6 +207,8 @@ class Engine:
         self.nloops = 0
         self.cur_name = "gen"
         self.loopfin = []        # what `continue` evaluates to: the accumulator of the running loop
+        self.retk = []           # continuations of helpers inlined at `x = helper(..)` with early returns
+        self.soa = {}            # lists that only ever receive n-tuples: kept as n parallel lists
         self.inlining = []       # names of the helpers being inlined (no recursion)
         self.ninline = 0
 
@@ -249,7 +255,12 @@ class Engine:
             fail("constant %r" % (c,), e)
         if isinstance(e, ast.Name):
             if e.id in env:
+                if env[e.id].startswith("soa"):
+                    return V("", env[e.id], py={"soa": e.id})
                 return V(gname(e.id), env[e.id], py=env.get("@py:" + e.id))
+            c = self.module_constant(e.id)
+            if c is not None:                     # a module-level constant (tuple): by value
+                return self.expr(c, {}, W)
             fail("unbound name " + e.id, e)
         if isinstance(e, ast.Attribute):
             if isinstance(e.value, ast.Name) and e.value.id == "self":
@@ -360,6 +371,25 @@ class Engine:
             fail("call of %s" % (key,), e)
         return h(e, recv, env, W)
 
+    def module_constant(self, name):
+        """value node of a module-level `NAME = <constant or tuple / list of constants>` of the
+        translated source (assigned exactly once), or None"""
+        mod = self.current_module()
+        if mod is None:
+            return None
+        hits = [n for n in mod.body if isinstance(n, ast.Assign) and len(n.targets) == 1
+                and isinstance(n.targets[0], ast.Name) and n.targets[0].id == name]
+        if len(hits) != 1:
+            return None
+        v = hits[0].value
+        if isinstance(v, ast.Constant) or (isinstance(v, (ast.Tuple, ast.List)) and v.elts and all(
+                isinstance(x, ast.Constant) for x in v.elts)):
+            return v if not isinstance(v, ast.List) else ast.Tuple(elts=v.elts, ctx=ast.Load())
+        return None
+
+    def current_module(self):
+        return None
+
     def helper_of(self, e):
         """(FunctionDef, is_method) when `e` calls a helper of the source that has no handler"""
         f = e.func
@@ -393,7 +423,7 @@ class Engine:
         and non-returning ifs, optionally ending in `return <expr>`."""
         if fn.name in self.inlining or len(self.inlining) > 4:
             fail("recursive helper %s" % fn.name, call)
-        if fn.decorator_list:
+        if [u(d) for d in fn.decorator_list] not in ([], ["staticmethod"]):
             fail("decorated helper %s" % fn.name, call)
         body, env2 = self.bind_helper(fn, call, env, W, is_method)
         ret = None
@@ -416,6 +446,23 @@ class Engine:
                 env[k] = env2[k]
         return v
 
+    def scan_soa(self, stmts):
+        """names of lists that are created empty and only appended n-tuples"""
+        arity, other = {}, set()
+        for st in stmts:
+            for n in ast.walk(st):
+                if isinstance(n, ast.Call) and isinstance(n.func, ast.Attribute) and n.func.attr == "append" \
+                        and isinstance(n.func.value, ast.Name) and len(n.args) == 1:
+                    nm = n.func.value.id
+                    if isinstance(n.args[0], ast.Tuple):
+                        if arity.setdefault(nm, len(n.args[0].elts)) != len(n.args[0].elts):
+                            other.add(nm)
+                    else:
+                        other.add(nm)
+        for nm, k in arity.items():
+            if nm not in other:
+                self.soa[nm] = k
+
     def bind_helper(self, fn, call, env, W, is_method):
         """rename the helper's locals, bind its parameters to the arguments -> (body, environment)"""
         self.ninline += 1
@@ -430,6 +477,7 @@ class Engine:
                               and isinstance(n.ctx, ast.Store)}
         body = [_RenameLocals(prefix, local).visit(ast.parse(ast.unparse(st)).body[0])
                 for st in body_of(fn)]
+        self.scan_soa(body)
         env2 = {k: v for k, v in env.items() if k[0] in "$#" or k == "@fitted"}
         for p in names:
             node = b.get(p, defaults.get(p))
@@ -456,7 +504,7 @@ class Engine:
         function's returns, so guard clauses inside it are fine)"""
         if fn.name in self.inlining or len(self.inlining) > 4:
             fail("recursive helper %s" % fn.name, call)
-        if fn.decorator_list:
+        if [u(d) for d in fn.decorator_list] not in ([], ["staticmethod"]):
             fail("decorated helper %s" % fn.name, call)
         W = []
         body, env2 = self.bind_helper(fn, call, env, W, is_method)
@@ -469,6 +517,60 @@ class Engine:
             self.loopfin = saved_loopfin
             self.leave_helper(token)
             self.inlining.pop()
+        return nest(W, text)
+
+    @staticmethod
+    def returns_early(fn):
+        """does the helper return from anywhere but its last top-level statement?"""
+        b = body_of(fn)
+        inner = b[:-1] if b and isinstance(b[-1], ast.Return) else b
+        return any(isinstance(n, ast.Return) for st in inner for n in ast.walk(st)) \
+            and not any(isinstance(n, (ast.Yield, ast.YieldFrom)) for n in ast.walk(fn))
+
+    def inline_assign(self, fn, s, rest, env, fin, is_method):
+        """`x = helper(args)` where the helper has guard clauses / several returns: the helper's body
+        is translated in place and every `return e` continues with `x = e; <rest of the caller>`
+        (the continuation is duplicated per return path)"""
+        if fn.name in self.inlining or len(self.inlining) > 4:
+            fail("recursive helper %s" % fn.name, s)
+        if [u(d) for d in fn.decorator_list] not in ([], ["staticmethod"]):
+            fail("decorated helper %s" % fn.name, s)
+        W = []
+        body, env2 = self.bind_helper(fn, s.value, env, W, is_method)
+        caller_env = dict(env)
+        depth = len(self.retk)
+
+        def k(value, env_h):
+            Wk = []
+            saved = self.retk
+            self.retk = self.retk[:depth]         # the continuation belongs to the caller
+            try:
+                if value is None:
+                    fail("helper %s returns nothing on some path" % fn.name, s)
+                v = self.force(self.expr(value, env_h, Wk), env_h, Wk)
+                e2 = dict(caller_env)
+                for key in env_h:
+                    if key[0] == "$" or key == "@fitted":
+                        e2[key] = env_h[key]
+                tg = s.targets[0]
+                if isinstance(tg, ast.Name):
+                    self.assign_name(tg.id, v, s, e2, Wk)
+                else:
+                    self.assign_tuple([x.id for x in tg.elts], v, s, e2, Wk)
+                return nest(Wk, self.block(rest, e2, fin))
+            finally:
+                self.retk = saved
+        self.retk = self.retk + [k]
+        self.inlining.append(fn.name)
+        token = self.enter_helper(fn)
+        saved_loopfin, self.loopfin = self.loopfin, []
+        try:
+            text = self.block(body, env2, lambda e: k(None, e))
+        finally:
+            self.loopfin = saved_loopfin
+            self.leave_helper(token)
+            self.inlining.pop()
+            self.retk = self.retk[:depth]
         return nest(W, text)
 
     def try_finally(self, body, finalbody, rest, env, fin):
@@ -579,6 +681,18 @@ class Engine:
         if len(e.generators) != 1 or e.generators[0].ifs or e.generators[0].is_async:
             fail("comprehension shape", e)
         g = e.generators[0]
+        if isinstance(g.iter, ast.Name) and env.get(g.iter.id, "").startswith("soa"):
+            # [a for a, _ in pairs]: a projection of a list kept as parallel lists
+            n = int(env[g.iter.id][3:])
+            tg = g.target
+            if isinstance(tg, ast.Tuple) and len(tg.elts) == n and all(isinstance(x, ast.Name) for x in tg.elts) \
+                    and isinstance(e.elt, ast.Name) and e.elt.id != "_" \
+                    and [x.id for x in tg.elts].count(e.elt.id) == 1:
+                i = [x.id for x in tg.elts].index(e.elt.id)
+                key = "%s#%d" % (g.iter.id, i)
+                others = ["%s#%d" % (g.iter.id, j) for j in range(n) if j != i]
+                return V(gname(key), env[key], py={"siblings": [(gname(o), env[o]) for o in others]})
+            fail("comprehension over a list of tuples that is not a projection", e)
         fake = ast.copy_location(ast.For(target=g.target, iter=g.iter, body=[], orelse=[]), e)
         v = self.loop(fake, env, W, comp=e.elt)
         n = self.newname("res")
@@ -709,6 +823,13 @@ class Engine:
                 fail("for/else", s)
             self.loop(s, env, W)
             return nest(W, self.block(rest, env, fin))
+        if isinstance(s, ast.Assign) and len(s.targets) == 1 and isinstance(s.value, ast.Call) \
+                and (isinstance(s.targets[0], ast.Name) or (
+                    isinstance(s.targets[0], ast.Tuple)
+                    and all(isinstance(x, ast.Name) for x in s.targets[0].elts))):
+            h = self.helper_of(s.value)
+            if h is not None and self.returns_early(h[0]):
+                return self.inline_assign(h[0], s, rest, env, fin, h[1])
         if isinstance(s, ast.Continue):
             if not self.loopfin:
                 fail("continue outside a translated loop", s)
@@ -719,6 +840,13 @@ class Engine:
             if s.handlers or s.orelse or not s.finalbody:
                 fail("try statement other than try/finally", s)
             return self.try_finally(s.body, s.finalbody, rest, env, fin)
+        if isinstance(s, ast.Return) and self.retk:
+            if isinstance(s.value, ast.Call):
+                h = self.helper_of(s.value)
+                if h is not None and not any(isinstance(n, (ast.Yield, ast.YieldFrom))
+                                             for n in ast.walk(h[0])):
+                    return self.inline_tail(h[0], s.value, env, fin, h[1])
+            return self.retk[-1](s.value, env)
         if isinstance(s, ast.Return):
             if isinstance(s.value, ast.Call):
                 h = self.helper_of(s.value)
@@ -743,6 +871,9 @@ class Engine:
         elif isinstance(it, ast.Name) and env.get(it.id) == "tuple" and env.get("@py:" + it.id) \
                 and all(p.ty == "str" for p in env["@py:" + it.id]):
             consts = [p.py for p in env["@py:" + it.id]]
+        elif isinstance(it, ast.Name) and it.id not in env and self.module_constant(it.id) is not None \
+                and isinstance(self.module_constant(it.id), ast.Tuple):
+            consts = [x.value for x in self.module_constant(it.id).elts]
         if consts is None:
             return None
         if not isinstance(s.target, ast.Name) or s.orelse or len(consts) > 16:
@@ -778,8 +909,37 @@ class Engine:
             self.on_append(name, "list:" + v.ty, env)
             return
         if isinstance(s, ast.Assign) and len(s.targets) == 1 and isinstance(s.targets[0], ast.Name) \
-                and isinstance(s.value, ast.List) and not s.value.elts:
-            self.let(W, env, gname(s.targets[0].id), "[]", "list:?", key=s.targets[0].id)
+                and ((isinstance(s.value, ast.List) and not s.value.elts)
+                     or (isinstance(s.value, ast.Call) and isinstance(s.value.func, ast.Name)
+                         and s.value.func.id == "list" and "list" not in env
+                         and not s.value.args and not s.value.keywords)):
+            name = s.targets[0].id
+            n = self.soa.get(name)
+            if n:
+                # every append to this list is an n-tuple: n parallel lists (so that collecting
+                # (a, b) pairs and unzipping them later is the same term as two lists in lock step)
+                for i in range(n):
+                    self.let(W, env, gname("%s#%d" % (name, i)), "[]", "list:?", key="%s#%d" % (name, i))
+                env[name] = "soa%d" % n
+                return
+            self.let(W, env, gname(name), "[]", "list:?", key=name)
+            return
+        if isinstance(s, ast.Expr) and isinstance(s.value, ast.Call) \
+                and isinstance(s.value.func, ast.Attribute) and s.value.func.attr == "append" \
+                and isinstance(s.value.func.value, ast.Name) \
+                and env.get(s.value.func.value.id, "").startswith("soa"):
+            name = s.value.func.value.id
+            n = int(env[name][3:])
+            if len(s.value.args) != 1 or s.value.keywords:
+                fail("append arity", s)
+            v = self.force(self.expr(s.value.args[0], env, W), env, W)
+            if v.ty != "tuple" or len(v.py) != n or any(p.t == "" for p in v.py):
+                fail("append of something other than a %d-tuple of values" % n, s)
+            for i, part in enumerate(v.py):
+                key = "%s#%d" % (name, i)
+                if env[key] != "list:?" and env[key] != "list:" + part.ty:
+                    fail("append of a %s to a %s" % (part.ty, env[key]), s)
+                self.let(W, env, gname(key), "%s ++ [%s]" % (gname(key), part.t), "list:" + part.ty, key=key)
             return
         if isinstance(s, ast.Expr) and isinstance(s.value, ast.Call):
             v = self.call(s.value, env, W)
@@ -943,10 +1103,16 @@ class Engine:
     # -- for
     def loop_source(self, it, env, W):
         """-> dict(list=term, ety=element type, cell=cell to write the elements back to or None)"""
-        fail("loop over", it)
+        v = self.force(self.expr(it, env, W), env, W)
+        if v.ty.startswith("list:") and v.ty != "list:?" and v.t != "":
+            return {"list": v.t, "ety": v.ty[5:]}
+        fail("loop over a value of type %s" % v.ty, it)
 
     def bind_target(self, tg, src, env):
         """bind the loop target from `it_` -> list of (pattern, term) lets; sets env types"""
+        if isinstance(tg, ast.Name):
+            env[tg.id] = src["ety"]
+            return [(gname(tg.id), "it_")]
         fail("loop target", tg)
 
     def loop(self, s, env, W, comp=None):
